@@ -9,7 +9,7 @@ from . import prog_common as PC
 from .c01 import disp
 
 ANCHORS = ['solve', 'solve_all', 'start_query_timer', 'cancel_timer', 'query_stopped', 'count_rules', 'next_solution']
-WITNESSES = {'all': ['timer-never-fires', 'timer-fires-mid-search', 'timer-fires-at-first-observation', 'solve', 'solve_all', 'prefix-shorter-than-all']}
+WITNESSES = {'all': ['timer-never-fires', 'timer-fires-mid-search', 'timer-fires-at-first-observation', 'solve', 'solve_all', 'prefix-shorter-than-all', 'after-a-real-timeout', 'built-before-the-timeout']}
 OPTS = {'quick': {'selfcheck_mod': 25, 'budget_s': 280}, 'thorough': {'selfcheck_mod': 200, 'budget_s': 3000}}
 STEP_LIMIT = 1_500_000
 NEEDS_HOOKS = True
@@ -17,7 +17,8 @@ TIMEOUT_MSG = 'Query timed out after 1000 milliseconds.'
 BOUNDS = {
     'quick': '14 programs (facts with symbolic data, conjunctions, disjunctions, recursion over a 3-element list, not, cut, arithmetic) with 0-6 answers and up to 40 observations of the stop flag; '
              'the timer thread is modelled as an event that may set the flag between any two observations: one exploration branch per firing point (every observation of the run, and "never"); '
-             'drivers: solve_all once; solve repeatedly until "No more." or the timeout text',
+             'drivers: solve_all once; solve repeatedly until "No more." or the timeout text; every second program also after another search\'s timer really expired '
+             '(start_query_timer, expiry, cancel_timer) before and after the query and its node were built',
     'thorough': '30 programs, including ones with 100+ observations (every 3rd firing point beyond the 40th)',
 }
 OUTSIDE = 'the real thread and real durations (the timer\'s scheduling is abstracted to its firing point; its data race is C24); what a query returns after it has reported a timeout'
@@ -53,8 +54,10 @@ def cases(tier, seed):
     progs = PROGS if tier == 'quick' else PROGS + MORE
     for i, (cl, q) in enumerate(progs):
         for drvk in ('solve_all', 'solve'):
-            out.append({'id': 'program %d %s via %s' % (i, P.ctext(cl[0]), drvk), 'clauses': PC.jsonable(tuple(cl)), 'query': PC.jsonable(q), 'driver': drvk,
-                        'dense': 40})
+            for pre in ('', 'expire-after-build', 'expire-before-build'):
+                if pre and tier == 'quick' and i % 2: continue
+                out.append({'id': 'program %d %s via %s%s' % (i, P.ctext(cl[0]), drvk, ' [%s]' % pre if pre else ''), 'clauses': PC.jsonable(tuple(cl)), 'query': PC.jsonable(q),
+                            'driver': drvk, 'dense': 40, 'pre': pre})
     return out
 
 
@@ -100,8 +103,12 @@ def run(drv, case):
     points = list(range(min(nobs, dense))) + list(range(dense, nobs, 3)) + [-1]
     k = m.choose(len(points))
     n = points[k]
+    pre = case.get('pre', '')
+    # another search exceeded its limit (its timer thread really fired) before / after this query was built
+    if pre == 'expire-before-build': drv.expire(); tags.append('after-a-real-timeout')
     q = drv.query([drv.term(t) for t in query[1]])
     node = drv.base(q, kb)
+    if pre == 'expire-after-build': drv.expire(); tags.append('after-a-real-timeout'); tags.append('built-before-the-timeout')
     if leaked and n < 0:
         # this query's own timer never fires, but the one left over from the previous (finished) query does
         drv.stop_at(1)
